@@ -61,6 +61,20 @@ def Statement_zero_length_on_given_term : Prop :=
     (a, a) ∈ evalPath g (.mul p m) (some a) none ∧ (a, a) ∈ evalPath g (.mul p m) none (some a) ∧
     (a, a) ∈ evalPath g (.mul p m) (some a) (some a)
 
+/-- The direction `SequencePath.eval` chooses is semantically irrelevant where both apply: with
+    both ends given, forward and backward evaluation produce the same pairs. -/
+def Statement_seq_fw_bw_agree : Prop :=
+  ∀ (g : Graph) (p : Path) (ps : List Path) (a b x y : Term),
+    (x, y) ∈ seqFw (evalPath g p) (evalList g ps) (some a) (some b) ↔
+    (x, y) ∈ seqBwRev (revOnto (evalList g ps) (evalPath g p) []).1 (revOnto (evalList g ps) (evalPath g p) []).2
+      (some a) (some b)
+
+/-- The splicing done by `SequencePath(...)` / `AlternativePath(...)` (nested arguments of the same
+    class are flattened) does not change the denoted relation; so the object the user builds is
+    evaluated to the relation of the expression the user wrote. -/
+def Statement_build_preserves_rel : Prop :=
+  ∀ (g : Graph) (p : Path), rel g (build p) = rel g p
+
 /-! ### Proofs (structural induction on the path; the per-generator lemmas are in Lemmas.lean) -/
 
 mutual
@@ -126,5 +140,194 @@ theorem zero_length_on_given_term : Statement_zero_length_on_given_term := by
     | oneOrMore => simp [Mod.zero] at hz
   refine ⟨(path_correct g _ _ _ a a).mpr ⟨hc, ?_⟩, (path_correct g _ _ _ a a).mpr ⟨hc, ?_⟩,
     (path_correct g _ _ _ a a).mpr ⟨hc, ?_⟩⟩ <;> simp
+
+theorem seq_fw_bw_agree : Statement_seq_fw_bw_agree := by
+  intro g p ps a b x y
+  rw [seqFw_correct (evalList_correct g ps) _ _ (evalPath_correct g p) (rel_iso g p) (relList_iso g ps)
+      (some a) (some b) (Or.inl (by simp)) x y,
+    seqBw_correct (evalPath_correct g p) (evalList_correct g ps) (rel_iso g p) (relList_iso g ps)
+      (some a) (some b) (Or.inl (by simp)) x y]
+
+/-! #### the constructors' flattening -/
+
+
+theorem relList_append (g : Graph) : ∀ ps qs : List Path, relList g (ps ++ qs) = relList g ps ++ relList g qs
+  | [], qs => by simp [relList]
+  | p :: ps, qs => by simp only [List.cons_append, relList, relList_append g ps qs]
+
+/-- the spliced arguments of one `SequencePath` argument compose to that argument's relation -/
+theorem rel_seqArgs (g : Graph) (p : Path) :
+    ∃ a as, seqArgs p = a :: as ∧ compList (rel g a) (relList g as) = rel g p := by
+  cases p with
+  | seq q qs => exact ⟨q, qs, rfl, by rw [rel]⟩
+  | iri _ => exact ⟨_, [], rfl, rfl⟩
+  | inv _ => exact ⟨_, [], rfl, rfl⟩
+  | alt _ => exact ⟨_, [], rfl, rfl⟩
+  | mul _ _ => exact ⟨_, [], rfl, rfl⟩
+  | neg _ _ => exact ⟨_, [], rfl, rfl⟩
+
+theorem compList_flatMap_seqArgs (g : Graph) : ∀ (ps : List Path) (R : Rel),
+    compList R (relList g (ps.flatMap seqArgs)) = compList R (relList g ps)
+  | [], _ => rfl
+  | p :: ps, R => by
+    obtain ⟨a, as, h1, h2⟩ := rel_seqArgs g p
+    simp only [List.flatMap_cons, h1, List.cons_append, relList, relList_append, compList]
+    rw [compList_append, h2, compList_flatMap_seqArgs g ps (rel g p)]
+
+theorem rel_seq (g : Graph) (q : Path) (qs : List Path) :
+    rel g (.seq q qs) = compList (rel g q) (relList g qs) := by rw [rel]
+
+theorem rel_mkSeq (g : Graph) (p : Path) (ps : List Path) :
+    rel g (mkSeq p ps) = compList (rel g p) (relList g ps) := by
+  cases p with
+  | seq q qs =>
+    simp only [mkSeq]
+    rw [rel_seq, relList_append, compList_append, compList_flatMap_seqArgs, rel_seq]
+  | iri _ => simp only [mkSeq]; rw [rel_seq, compList_flatMap_seqArgs]
+  | inv _ => simp only [mkSeq]; rw [rel_seq, compList_flatMap_seqArgs]
+  | alt _ => simp only [mkSeq]; rw [rel_seq, compList_flatMap_seqArgs]
+  | mul _ _ => simp only [mkSeq]; rw [rel_seq, compList_flatMap_seqArgs]
+  | neg _ _ => simp only [mkSeq]; rw [rel_seq, compList_flatMap_seqArgs]
+
+theorem rel_altArgs (g : Graph) (p : Path) : unionList (relList g (altArgs p)) = rel g p := by
+  cases p with
+  | alt qs => simp only [altArgs]; rw [rel]
+  | iri _ => simp only [altArgs, relList]; exact unionList_singleton _
+  | inv _ => simp only [altArgs, relList]; exact unionList_singleton _
+  | seq _ _ => simp only [altArgs, relList]; exact unionList_singleton _
+  | mul _ _ => simp only [altArgs, relList]; exact unionList_singleton _
+  | neg _ _ => simp only [altArgs, relList]; exact unionList_singleton _
+
+theorem unionList_cons (R : Rel) (Rs : List Rel) :
+    unionList (R :: Rs) = fun x y => R x y ∨ unionList Rs x y := by
+  have := unionList_append [R] Rs
+  rw [unionList_singleton] at this
+  exact this
+
+theorem unionList_flatMap_altArgs (g : Graph) : ∀ ps : List Path,
+    unionList (relList g (ps.flatMap altArgs)) = unionList (relList g ps)
+  | [] => rfl
+  | p :: ps => by
+    simp only [List.flatMap_cons, relList_append, relList]
+    rw [unionList_append, unionList_cons, rel_altArgs, unionList_flatMap_altArgs g ps]
+
+mutual
+theorem build_rel_aux (g : Graph) : ∀ p : Path, rel g (build p) = rel g p
+  | .iri p => by rw [build]
+  | .inv p => by rw [build, rel, rel, build_rel_aux g p]
+  | .seq p ps => by rw [build, rel_mkSeq, build_rel_aux g p, buildList_rel_aux g ps, rel]
+  | .alt ps => by rw [build, mkAlt, rel, unionList_flatMap_altArgs, buildList_rel_aux g ps, rel]
+  | .mul p m => by rw [build, rel, rel, build_rel_aux g p]
+  | .neg fw bw => by rw [build]
+theorem buildList_rel_aux (g : Graph) : ∀ ps : List Path, relList g (buildList ps) = relList g ps
+  | [] => by rw [buildList]
+  | p :: ps => by rw [buildList, relList, relList, build_rel_aux g p, buildList_rel_aux g ps]
+end
+
+
+theorem build_preserves_rel : Statement_build_preserves_rel := build_rel_aux
+
+/-- What a user gets: the expression `p` is built by the constructors (`build`) and evaluated. -/
+def Statement_path_correct_as_built : Prop :=
+  ∀ (g : Graph) (p : Path) (s o : Option Term) (x y : Term),
+    (x, y) ∈ evalPath g (build p) s o ↔
+      rel g p x y ∧ (∀ a, s = some a → x = a) ∧ (∀ b, o = some b → y = b) ∧
+        (s = none → o = none → x ∈ nodes g ∧ y ∈ nodes g)
+
+theorem path_correct_as_built : Statement_path_correct_as_built := by
+  intro g p s o x y
+  rw [← build_preserves_rel g p]
+  exact path_correct g (build p) s o x y
+
+/-! ### Non-vacuity: cyclic graph (2-cycle, self-loop, 3-cycle), nested closures, all bindings -/
+
+/-- 2-cycle 1⇄2 on p=10, self-loop on 3, 3-cycle 4→5→6→4 on q=11, edge 2 -q-> 4 -/
+def exG : Graph := [(1, 10, 2), (2, 10, 1), (3, 10, 3), (4, 11, 5), (5, 11, 6), (6, 11, 4), (2, 11, 4)]
+/-- `(p* / (q | ^q))+` -/
+def exP : Path := .mul (.seq (.mul (.iri 10) .zeroOrMore) [.alt [.iri 11, .inv (.iri 11)]]) .oneOrMore
+
+example : evalPath exG (.mul (.iri 10) .zeroOrMore) (some 1) none = [(1, 1), (1, 2)] := by decide
+example : evalPath exG (.mul (.iri 10) .oneOrMore) (some 3) none = [(3, 3)] := by decide
+example : evalPath exG (.mul (.iri 10) .zeroOrMore) (some 9) none = [(9, 9)] := by decide  -- 9 ∉ nodes
+example : evalPath exG exP (some 1) none = [(1, 4), (1, 5), (1, 6), (1, 2)] := by decide
+example : evalPath exG exP none (some 2) = [(4, 2), (6, 2), (5, 2), (2, 2), (1, 2)] := by decide
+example : evalPath exG exP (some 1) (some 6) = [(1, 6)] := by decide
+example : (evalPath exG (.mul (.iri 11) .zeroOrMore) none none).length = 15 := by decide
+example : evalPath exG (.neg [10] [11]) none (some 4) = [(6, 4), (2, 4)] := by decide
+example : mulOk exG (.iri 11) .oneOrMore (some 4) none = true := by decide
+example : build (.seq (.seq (.iri 10) [.iri 11]) [.seq (.iri 10) [.iri 10]]) =
+    .seq (.iri 10) [.iri 11, .iri 10, .iri 10] := rfl
+
+/-! ### The defects of the pinned code (before the `fix:` commits of branch fix-C11), kept as
+    regression witnesses.  Each definition is the pre-fix generator; each theorem shows on a
+    concrete instance that it violates the property. -/
+
+def wG : Graph := [(1, 10, 2), (2, 10, 1)]
+
+/-- pre-fix `MulPath.eval`: the zero-length pair was yielded before the `done` filter existed -/
+def mulEvalPrefixDone (g : Graph) (ev : Ev) (m : Mod) : Ev := fun s o =>
+  (if m.zero then zeroPairs s o else []) ++ dedupInto [] (mulRun g ev m s o).1
+
+theorem prefix_zero_pair_twice :
+    ¬ (mulEvalPrefixDone wG (tri wG 10) .zeroOrMore (some 1) none).Nodup := by decide
+
+/-- Python truthiness of a bound end: a falsy term counts as "not given" -/
+def truthy (falsy : Term → Bool) : Option Term → Option Term
+  | some t => if falsy t then none else some t
+  | none => none
+
+/-- pre-fix `MulPath.eval` (`if subj and obj / elif subj / elif obj`, `if not obj or o == obj`) -/
+def mulEvalPrefixTruthy (falsy : Term → Bool) (g : Graph) (ev : Ev) (m : Mod) : Ev := fun s o =>
+  (if m.zero then zeroPairs (truthy falsy s) (truthy falsy o) else []) ++
+  dedupInto [] (match s, o with
+    | some a, o => (fwd ev m.more (truthy falsy o) ((nodes g).length + 1) a []).out
+    | none, some b => (bwd ev m.more ((nodes g).length + 1) b []).out
+    | none, none => (allFwd g ev m ((nodes g).length + 1)).1)
+
+def wF : Graph := [(1, 10, 0), (1, 10, 2)]
+
+/-- `1 p+ 0` with `0` falsy returned every node reachable from 1; `0 p? 0` had no zero-length match -/
+theorem prefix_falsy_end_ignored :
+    mulEvalPrefixTruthy (· == 0) wF (tri wF 10) .oneOrMore (some 1) (some 0) = [(1, 0), (1, 2)] ∧
+    mulEvalPrefixTruthy (· == 0) wF (tri wF 10) .zeroOrOne (some 0) (some 0) = [] ∧
+    evalPath wF (.mul (.iri 10) .oneOrMore) (some 1) (some 0) = [(1, 0)] ∧
+    evalPath wF (.mul (.iri 10) .zeroOrOne) (some 0) (some 0) = [(0, 0)] := by decide
+
+/-- pre-fix `_eval_seq_bw`: after the last step it switched to the forward `_eval_seq` with a free start -/
+def seqBwRevPrefix : Ev → List Ev → Ev
+  | l, [] => fun s o => l s o
+  | l, l' :: ls => fun s o =>
+    (l none o).flatMap (fun my =>
+      (seqFw (revOnto ls l' []).1 (revOnto ls l' []).2 s (some my.1)).map (fun r => (r.1, my.2)))
+
+/-- `?s p*/p*/p* 9` on a graph without 9: the zero-length match on the given end was lost -/
+theorem prefix_seq_bw_loses_absent_end :
+    seqBwRevPrefix (evalPath wG (.mul (.iri 10) .zeroOrMore))
+      [evalPath wG (.mul (.iri 10) .zeroOrMore), evalPath wG (.mul (.iri 10) .zeroOrMore)] none (some 9) = [] ∧
+    evalPath wG (.seq (.mul (.iri 10) .zeroOrMore) [.mul (.iri 10) .zeroOrMore, .mul (.iri 10) .zeroOrMore])
+      none (some 9) = [(9, 9)] := by decide
+
+/-- pre-fix `NegatedPath.eval`: an inverse member `^a` excluded the *forward* triple `(s, p, o)` when
+    `(o, a, s)` was in the graph -/
+def negEvalPrefix (g : Graph) (fw bw : List Term) : Ev := fun s o =>
+  (g.filter (fun t => okPos s t.1 && (okPos o t.2.2 && (!(decide (t.2.1 ∈ fw)) &&
+      !(bw.any (fun a => decide ((t.2.2, a, t.1) ∈ g))))))).map (fun t => (t.1, t.2.2))
+
+/-- `?s !(^q) ?o` on the single triple `1 p 2`: the answer is `(2, 1)`, the old code said `(1, 2)` -/
+theorem prefix_neg_inverse_wrong :
+    negEvalPrefix [(1, 10, 2)] [] [11] none none = [(1, 2)] ∧
+    evalPath [(1, 10, 2)] (.neg [] [11]) none none = [(2, 1)] := by decide
+
+/-- pre-fix `ReadOnlyGraphAggregate.triples`: the path was evaluated once per member graph and the
+    loop rebound `s`, `o` to the last pair produced -/
+def aggPrefix (e : Ev) : Nat → Option Term → Option Term → List Pair
+  | 0, _, _ => []
+  | k + 1, s, o =>
+    e s o ++ (match (e s o).getLast? with
+      | some r => aggPrefix e k (some r.1) (some r.2)
+      | none => aggPrefix e k s o)
+
+theorem prefix_aggregate_duplicates :
+    ¬ (aggPrefix (evalPath wG (.mul (.iri 10) .zeroOrMore)) 2 (some 1) none).Nodup := by decide
 
 end RV.C11
